@@ -381,9 +381,23 @@ Definition errors_flat (tbl : list (Z * N)) (ops : list wop) (ret : Z) : list wo
 
 (* a whole request through Server.ServeHTTP of a site with the given log directives:
    (status the client sees, body bytes the client gets, log lines) *)
-Definition site_serve (c : wcfg) (cs : bool) (tbl : list (Z * N)) (haserr : bool)
-           (ds : list directive) (path : bytes) (ops : list wop) (ret : Z) : Z * N * list line :=
+(* header.Headers sits between log and errors: its writer wrapper drops every WriteHeader after
+   the first WriteHeader / Write *)
+Fixpoint header_filter (wrote : bool) (ops : list wop) : list wop :=
+  match ops with
+  | [] => []
+  | OWH code :: r => if wrote then header_filter true r else OWH code :: header_filter true r
+  | OW len fail :: r => OW len fail :: header_filter true r
+  | OPanic :: r => OPanic :: header_filter wrote r
+  end.
+(* the handler script as the log middleware's recorder sees it *)
+Definition inner_flat (tbl : list (Z * N)) (haserr hdrw : bool) (ops : list wop) (ret : Z) : list wop * Z :=
   let '(ops1, ret1) := if haserr then errors_flat tbl ops ret else (ops, ret) in
+  (if hdrw then header_filter false ops1 else ops1, ret1).
+
+Definition site_serve (c : wcfg) (cs : bool) (tbl : list (Z * N)) (haserr hdrw : bool)
+           (ds : list directive) (path : bytes) (ops : list wop) (ret : Z) : Z * N * list line :=
+  let '(ops1, ret1) := inner_flat tbl haserr hdrw ops ret in
   let '(u, ret2, p, lines) := log_serve c cs tbl 1 (parse_logs ds 0 [] []) path ops1 ret1 uw0 in
   let u' := if p then fst (fst (run c (u, rec0) (err_ops tbl 1 500)))
             else if (400 <=? ret2)%Z then fst (fst (run c (u, rec0) (err_ops tbl 1 ret2)))
@@ -458,8 +472,10 @@ Inductive case :=
        (obs_ret : Z) (obs_panic : bool)
 (* one HTTP/1.1 request to a running site with the given log directives (+ errors):
    obs = status and body length seen by the client, the lines found in the log files
-   (directive index, {status}, {size}), and the request-derived tail of each line *)
-| CSite (haserr head : bool) (ds : list directive) (path : bytes) (ops : list wop) (ret : Z)
+   (directive index, {status}, {size}), and the request-derived tail of each line;
+   modelled = false: a gzip directive sits between log and the handler (sizes are those of the
+   compressed stream, which the model does not predict: only the spec is judged) *)
+| CSite (modelled haserr hdrw head : bool) (ds : list directive) (path : bytes) (ops : list wop) (ret : Z)
         (tbl : list (Z * N)) (obs_status : Z) (obs_size : N) (obs_lines : list line)
         (tailfmt : bytes) (e : renv) (obs_tails : list bytes)
 (* requests issued concurrently *)
@@ -484,10 +500,10 @@ Fixpoint judge1 (c : case) : bool * bool :=
       let spec := op || (rule_counts_ok cs rules path ol &&
                          lines_exact (if (ous =? 0)%Z then 200%Z else ous) ousz ol) in
       (agree, spec)
-  | CSite haserr head ds path ops ret tbl ost osz ol tf e otails =>
+  | CSite modelled haserr hdrw head ds path ops ret tbl ost osz ol tf e otails =>
       let wc := {| w_nethttp := true; w_head := head |} in
-      let '(st, sz, ls) := site_serve wc false tbl haserr ds path ops ret in
-      let agree := (st =? ost)%Z && (sz =? osz) && list_beq line_beq ls ol &&
+      let '(st, sz, ls) := site_serve wc false tbl haserr hdrw ds path ops ret in
+      let agree := (negb modelled || ((st =? ost)%Z && (sz =? osz) && list_beq line_beq ls ol)) &&
                    forallb (fun t => match expand_env e tf with Ok o => beq o t | Panic => false end) otails in
       let spec := counts_ok false ds 0 path ol && lines_exact ost osz ol &&
                   forallb (spec_expand_ok e tf) otails &&
